@@ -3,6 +3,10 @@
 use crate::report::Ctx;
 use serde_json::Value;
 
+pub mod c01;
+pub mod c02;
+pub mod c03;
+pub mod c04;
 pub mod c05;
 pub mod c06;
 pub mod manager;
@@ -11,26 +15,37 @@ pub mod selftest;
 pub mod c15;
 pub mod c17;
 pub mod c18;
+pub mod c19;
 pub mod c20;
 
 /// (property id, evidence level, check function)
 pub const REGISTRY: &[(&str, &str, fn(&mut Ctx))] = &[
+    ("C01", "fault_enumeration", c01::run),
+    ("C02", "fault_enumeration", c02::run),
+    ("C03", "exploration", c03::run),
+    ("C04", "exploration", c04::run),
     ("C05", "model_checking", c05::run),
     ("C06", "model_checking", c06::run),
     ("C14", "model_checking", c14::run),
     ("C15", "model_checking", c15::run),
     ("C17", "model_checking", c17::run),
     ("C18", "exploration", c18::run),
+    ("C19", "exploration", c19::run),
     ("C20", "exploration", c20::run),
 ];
 
 pub fn replay(id: &str, case: &Value) -> Result<String, String> {
     match id {
+        "C01" => c01::replay(case),
+        "C02" => c02::replay(case),
+        "C03" => c03::replay(case),
+        "C04" => c04::replay(case),
         "C05" | "C06" => manager::replay(case),
         "C14" => c14::replay(case),
         "C15" => c15::replay(case),
         "C17" => c17::replay(case),
         "C18" => c18::replay(case),
+        "C19" => c19::replay(case),
         "C20" => c20::replay(case),
         _ => Err(format!("no replayer for {id}")),
     }
